@@ -14,7 +14,7 @@ META = {
 SPIN = ["ABTD_spinlock_acquire.0", "ABTD_spinlock_acquire.1"]
 
 
-def obligations(tier):
+def own_obligations(tier):
     o = []
     for v, vn in [(0, "resume_is_focus"), (1, "decision_is_focus")]:
         for fx, fn in [(0, "from_stream"), (1, "from_ext")]:
@@ -30,9 +30,14 @@ def obligations(tier):
                      no_std=["--pointer-overflow-check", "--signed-overflow-check", "--undefined-shift-check"],
                      encodes=["ABTI_ythread_callback_" + nm, "ABTI_thread_handle_request", "ABTI_thread_handle_request_migrate", "ABTI_ythread_resume_and_push", "ABTI_pool_inc_num_blocked", "ABTI_pool_dec_num_blocked"],
                      bounds="one block/resume cycle, 3 pools", symbolic="whether a migration request is pending", timeout=300))
+    return o
+
+
+def obligations(tier):
+    o = own_obligations(tier)
     import importlib
     C11 = importlib.import_module("props.C11")
-    o += [x for x in C11.obligations(tier) if x.name == "directed_thread_yield_to"]   # error path of ABT_thread_yield_to must undo its num_blocked pre-increment
+    o += [x for x in C11.own_obligations(tier) if x.name == "directed_thread_yield_to"]   # error path of ABT_thread_yield_to must undo its num_blocked pre-increment
     o += deepen([x for x in o if x.hooks], tier)
     return o
 
